@@ -18,7 +18,7 @@ env = dict(os.environ, CARGO_NET_OFFLINE="true")
 ALL = [f"C{i:02d}" for i in range(1, 21)]
 ORDER = {
     "src/validation.rs": ["C05", "C06", "C07", "C08", "C09", "C10", "C13", "C17", "C11", "C12", "C14"],
-    "src/aidl.lalrpop": ["C02", "C03", "C04", "C14", "C18", "C20", "C10", "C19"],
+    "src/aidl.lalrpop": ["C04", "C02", "C03", "C14", "C18", "C20", "C10", "C19"],
     "src/ast.rs": ["C02", "C19", "C17", "C15", "C16", "C04"],
     "src/traverse.rs": ["C15", "C16", "C17"],
     "src/symbol.rs": ["C16", "C15", "C17", "C18"],
@@ -72,7 +72,13 @@ def main():
         r = {"id": m["id"], "file": m["file"], "line": m["line"], "op": m["op"], "old": m["old"].strip(), "new": m["new"].strip()}
         t0 = time.time()
         try:
-            code, out = sh(["cargo", "test", "--offline", "--workspace", "--no-fail-fast"], repo, 420)
+            # MUTSWEEP_CHECKS_FIRST: run the quick checks first and the library's suite only for
+            # mutants they leave alive (grammar mutants: each build of the generated parser is slow)
+            checks_first = bool(os.environ.get("MUTSWEEP_CHECKS_FIRST"))
+            if checks_first:
+                code, out = 0, "test result"
+            else:
+                code, out = sh(["cargo", "test", "--offline", "--workspace", "--no-fail-fast"], repo, 420)
             if code == -9:
                 r.update(verdict="suite", detail="test suite timed out (non-termination)")
             elif "could not compile" in out or "error[E" in out or "error: " in out and "test result" not in out:
@@ -104,6 +110,14 @@ def main():
                                 break
                     shutil.rmtree(outdir, ignore_errors=True)
                     r.update(verdict=verdict, detail=detail, silent=silent, errors=errors)
+                    if checks_first:
+                        r["suite"] = "not run (checks first)"
+                        if verdict == "survived":
+                            code, out = sh(["cargo", "test", "--offline", "--workspace", "--no-fail-fast"], repo, 900)
+                            if code != 0:
+                                failed = [l for l in out.split("\n") if l.startswith("test ") and "FAILED" in l]
+                                r.update(verdict="suite", detail=f"all quick checks silent; {len(failed)} tests fail, e.g. {failed[0] if failed else '?'}")
+                            r["suite"] = "run after the checks"
         finally:
             subprocess.run(["git", "-C", repo, "checkout", "-q", "--", "."], check=True)
         r["secs"] = round(time.time() - t0)
